@@ -159,13 +159,18 @@ func (r *propRun) exec() int {
 	}
 	r.prog = prog
 	r.notes = map[string]bool{}
-	timeout := 6 * time.Second
+	// wall-clock limits are generous; the deciding budget is the deterministic rlimit
+	timeout := 60 * time.Second
 	cache := filepath.Join(verifDir, ".cache", "smt")
+	rlimit := int64(40_000_000)
 	if r.tier == "thorough" {
-		timeout = 60 * time.Second
+		timeout = 180 * time.Second
+		rlimit = 400_000_000
 		cache = ""
 	}
 	solver := smt.NewSolver(timeout, cache)
+	solver.RLimit = rlimit
+	solver.CandRLimit = 8_000_000
 	solver.Confirm = r.tier == "thorough"
 	runner := &Runner{Solver: solver, Workers: runtime.NumCPU()}
 
@@ -198,6 +203,9 @@ func (r *propRun) exec() int {
 			return true
 		}
 		return blUndecided[o.ID]
+	}
+	if r.tier == "quick" {
+		runner.Cheap = func(o *govc.Oblig) bool { _, ok := known[o.ID]; return ok }
 	}
 	roots := map[string]bool{}
 	for _, f := range def.Roots {
